@@ -23,7 +23,11 @@ TREE = "/repo"
 
 
 def restore():
-    sh("git -C %s checkout -q -- . && git -C %s clean -fdq" % (TREE, TREE))
+    # (reset --hard: a failed three-way apply leaves unmerged index entries which "checkout -- ." refuses to touch)
+    if TREE == "/repo":
+        sh("git -C %s checkout -q -- . && git -C %s clean -fdq" % (TREE, TREE))
+    else:
+        sh("git -C %s reset -q --hard HEAD && git -C %s clean -fdq" % (TREE, TREE))
 
 
 def main():
